@@ -711,7 +711,15 @@ class C05(Prop):
     def model_requests(self, case):
         fmt, text, doc = self.document(case)
         if fmt == "composeinfo":
-            return [{"op": "c05_ci_cycle", "args": {"doc": doc}}]
+            reqs = [{"op": "c05_ci_cycle", "args": {"doc": doc}}]
+            if case["op"] == "ci":
+                # tie of the Lean specification `CI.down` / `CI.expected` (the theorems C05_ci_faithful_down*) to the spec-side
+                # down-conversion this harness feeds to the library
+                a = case["args"]
+                t = L.vt(a["version"])
+                sp = {"spec": CF.strip_parent(a["spec"]), "vs": a["version"], "ver": [t[0], t[1]], "keep_internal": bool(a.get("keep_internal"))}
+                reqs += [{"op": "c05_ci_down", "args": sp}, {"op": "c05_ci_expected", "args": sp}]
+            return reqs
         if fmt == "images":
             return [{"op": "c05_img_cycle", "args": {"doc": IF.enc(doc)}}]
         if fmt == "rpms":
@@ -727,7 +735,11 @@ class C05(Prop):
 
     def model_result(self, case, outs):
         o = outs[0]
-        return json.loads(o) if isinstance(o, str) else o
+        res = json.loads(o) if isinstance(o, str) else o
+        if len(outs) == 3 and isinstance(res, dict):
+            res["_down"] = json.loads(outs[1]) if isinstance(outs[1], str) else outs[1]
+            res["_expected"] = json.loads(outs[2]) if isinstance(outs[2], str) else outs[2]
+        return res
 
     def canon_model(self, fmt, snap):
         if fmt == "composeinfo":
@@ -763,6 +775,18 @@ class C05(Prop):
             if checklib.canon(rv) != checklib.canon(mv):
                 r[k], m[k] = rv, mv
                 break                                   # later steps depend on this one
+        if not r and case["op"] == "ci" and isinstance(model_out, dict) and "_down" in model_out:
+            a = case["args"]
+            nspec = CF.norm(a["spec"])
+            dn = model_out["_down"]
+            if isinstance(dn, dict) and "ok" in dn:
+                want = json.loads(json.dumps(L.ci_down(L.ci_doc(nspec), a["version"], a.get("keep_internal", False))))
+                if dn["ok"] != want:
+                    r["spec-side down-conversion (legacy.ci_down)"], m["Lean CI.down"] = first_diff(want, dn["ok"]), "differs"
+                ex = CF.canon(L.ci_expect(nspec, a["version"], a.get("keep_internal", False)))
+                got = CF.canon(model_out["_expected"])
+                if not r and checklib.canon(ex) != checklib.canon(got):
+                    r["spec-side expectation (legacy.ci_expect)"], m["Lean CI.expected"] = first_diff(got, ex), "differs"
         if r:
             return {"real": r, "model": m}
         return None
